@@ -84,6 +84,7 @@ class Interp:
         self.world = world
         self.loop_specs = {}        # ordinal -> LoopSpec (for the function currently executed)
         self.loop_counter = None
+        self.hooks = {}
         self.fn_stack = []
         self.module_globals = module_globals or {}
         self.inline_depth = 0
@@ -240,6 +241,7 @@ class Interp:
                 except BreakEx:
                     break
             return
+        if hasattr(it, "vf_enumerate"): it = it.vf_enumerate(self)
         spec = self.loop_specs.get(ordinal)
         if spec is None:
             raise Unsupported(f"loop #{ordinal} at line {s.lineno} in {self.fn_stack[-1]} has no invariant")
@@ -392,6 +394,10 @@ class Interp:
     def ex_Tuple(self, e, env): return tuple(self.eval(x, env) for x in e.elts)
     def ex_List(self, e, env): return [self.eval(x, env) for x in e.elts]
 
+    def ex_Set(self, e, env):
+        if "set_display" not in self.hooks: raise Unsupported("set display")
+        return self.hooks["set_display"](self, [self.eval(x, env) for x in e.elts])
+
     def ex_Dict(self, e, env):
         d = {}
         for k, v in zip(e.keys, e.values):
@@ -492,9 +498,11 @@ class Interp:
         return SDict(out)
 
     def comprehension(self, e, env):
+        it0 = self.eval(e.generators[0].iter, env)
+        if hasattr(it0, "vf_comprehension"): return it0.vf_comprehension(self, e, env)
         if len(e.generators) != 1: raise Unsupported("nested comprehension")
         gen = e.generators[0]
-        it = self.eval(gen.iter, env)
+        it = it0
         items = self.iterate_concrete_or_none(it)
         if items is not None:
             out = []
@@ -545,6 +553,9 @@ class Interp:
         if isinstance(e, ast.Compare) and len(e.ops) == 1:
             r = self.compare(e.ops[0], self.eval(e.left, env), self.eval(e.comparators[0], env))
             if isinstance(r, bool) or (z3.is_expr(r) and r.sort() == B): return r
+        if isinstance(e, ast.Call) and isinstance(e.func, ast.Name) and e.func.id == "isinstance" and len(e.args) == 2:
+            r = self.isinstance(self.eval(e.args[0], env), self.eval(e.args[1], env))
+            if isinstance(r, bool) or (z3.is_expr(r) and r.sort() == B): return r
         raise Unsupported("filter test outside the formula fragment")
 
     def qlist_filter(self, L, gen, env):
@@ -576,6 +587,7 @@ class Interp:
     # ================================================================== truth, compare
     def truth(self, v):
         if isinstance(v, bool): return v
+        if hasattr(v, "vf_truth"): return v.vf_truth(self)
         if v is NONE: return False
         if isinstance(v, PyNum): return self.eng.decide(v.z != 0)
         if isinstance(v, str): return len(v) > 0
@@ -976,6 +988,12 @@ class Interp:
         if isinstance(a, Opt): a = self.resolve_opt(a)
         if isinstance(b, Opt): b = self.resolve_opt(b)
         tname = type(op).__name__
+        if hasattr(a, "vf_binop"):
+            r_ = a.vf_binop(self, tname, b)
+            if r_ is not NotImplemented: return r_
+        if hasattr(b, "vf_rbinop"):
+            r_ = b.vf_rbinop(self, tname, a)
+            if r_ is not NotImplemented: return r_
         if isinstance(a, PyNum) and isinstance(b, PyNum):
             return self.num_binop(op, a, b)
         if isinstance(a, str) and isinstance(b, str) and tname == "Add": return a + b
@@ -1380,6 +1398,11 @@ class Interp:
 
     # ------------------------------------------------------------------ builtins
     def call_builtin(self, name, args, kwargs):
+        for a_ in args:
+            if hasattr(a_, "vf_builtin"):
+                r_ = a_.vf_builtin(self, name, args, kwargs)
+                if r_ is not NotImplemented: return r_
+        if not args and name in self.hooks: return self.hooks[name](self)
         eng = self.eng
         if name == "isinstance": return self.isinstance(args[0], args[1])
         if name == "len":
@@ -1606,8 +1629,9 @@ class Interp:
     def isinstance(self, x, cls):
         if isinstance(cls, tuple): return any(self.isinstance(x, c) for c in cls)
         if isinstance(x, ExplU): x = self.resolve(x)
-        cname = cls.name if isinstance(cls, (ClassRef, Builtin)) else None
+        cname = cls.name if isinstance(cls, (ClassRef, Builtin)) else getattr(cls, "vf_classname", None)
         if cname is None: raise Unsupported(f"isinstance class {cls!r}")
+        if hasattr(x, "vf_isinstance"): return x.vf_isinstance(self, cname)
         # branching on whether a model value is "no value" or a quantity uses its content (ghost read-set, C08 completeness)
         if isinstance(x, Expl) and cname in KIND_CLASS.values(): self.note_read(x)
         if cname in ("numbers.Number",):
